@@ -245,7 +245,20 @@ theorem readDecl_print (f : Func) (h : headerOK f) : readDecl (declString f) = s
   rw [← headerString_sig f]
   exact readHeader_print f h
 
-theorem readFunc_print (useHex : Int → Bool) (f : Func) (h : wfSyn f = true) : readFunc (printFunc useHex f) = some f := by
+theorem mdInstOKB_sound (useHex : Int → Bool) (i : Inst) (h : mdInstOKB useHex i = true) : mdOK useHex i := by
+  simp only [mdInstOKB, Bool.and_eq_true, List.all_eq_true, Bool.not_eq_true', decide_eq_true_eq, beq_iff_eq] at h
+  refine ⟨fun a ha => ?_, h.1.2⟩
+  have := h.1.1 a ha
+  exact ⟨by intro e; rw [e] at this; simp at this, this.2⟩
+
+theorem mdWF_sound (useHex : Int → Bool) (f : Func) (h : mdWF useHex f = true) : ∀ b ∈ f.blocks, blockMdOK useHex b := by
+  simp only [mdWF, List.all_eq_true] at h
+  intro b hb
+  have := h b hb
+  simp only [instsOf, List.mem_append, List.mem_singleton] at this
+  exact ⟨fun i hi => mdInstOKB_sound useHex i (this i (Or.inl hi)), mdInstOKB_sound useHex _ (this _ (Or.inr rfl))⟩
+
+theorem readFunc_print (useHex : Int → Bool) (f : Func) (h : wfSyn f = true) (hmd : mdWF useHex f = true) : readFunc (printFunc useHex f) = some f := by
   simp only [wfSyn, Bool.and_eq_true, Bool.not_eq_true', List.all_eq_true] at h
   obtain ⟨⟨hn, hp⟩, hb⟩ := h
   have hname : f.name ≠ [] := by intro e; rw [e] at hn; simp at hn
@@ -257,7 +270,7 @@ theorem readFunc_print (useHex : Int → Bool) (f : Func) (h : wfSyn f = true) :
     subst hbl
     simp only [printFunc, List.isEmpty_nil, if_true, readFunc, readDecl_print _ hok]
   · have hh := readHeader_print f hok
-    have hbs := readBlocks_print useHex f.blocks hbl (fun b hb' => blockOKB_sound b (hb b hb'))
+    have hbs := readBlocks_print useHex f.blocks hbl (fun b hb' => blockOKB_sound b (hb b hb')) (mdWF_sound useHex f hmd)
       ((blocksLines useHex f.blocks ++ [[125]]).length + 1) (by omega)
     have hemp : f.blocks.isEmpty = false := by simpa using hbl
     simp only [printFunc, hemp, Bool.false_eq_true, if_false]
@@ -439,7 +452,9 @@ theorem translateIn_wf (ge : GEnv) (f : Func) (hs : wfSyn f = true) (h : wfSemIn
   rw [hp]
   simp only [hn, if_true, fill_id f _ hs, hd, Bool.false_eq_true, if_false, hu, hl, ht, hg, hcalls, hpads, Bool.and_self, retype_id ge f hc]
 
-theorem translate_wf (f : Func) (hs : wfSyn f = true) (h : wfSem f = true) : translate f = some f :=
-  translateIn_wf (selfEnv f) f hs h
+theorem translate_wf (f : Func) (hs : wfSyn f = true) (h : wfSem f = true) : translate f = some f := by
+  simp only [wfSem, Bool.and_eq_true] at h
+  simp only [translate, h.2, if_true]
+  exact translateIn_wf (selfEnv f) f hs h.1
 
 end Llir.Core3
